@@ -678,6 +678,7 @@ type WritersSpec struct {
 // LemmaDef: a named, closed fact over spec functions, proved once (optionally by induction on one integer
 // parameter) and instantiated explicitly with `use name(args)` clauses.
 type LemmaDef struct {
+	UsingApps []Expr // explicit instances l(args) of other lemmas, arguments over this lemma's parameters
 	Name   string
 	Params []Param
 	Using  []string // previously proved lemmas available (universally quantified) in the proof
@@ -1167,8 +1168,36 @@ func parseLemmaDef(rest, path string, line int) (*LemmaDef, bool, error) {
 	head, body := src[:eq], src[eq+3:]
 	ld := &LemmaDef{Props: props, Src: src, File: path, Line: line}
 	if k := strings.Index(head, " using "); k >= 0 {
-		for _, n := range strings.Split(head[k+len(" using "):], ",") {
-			if n = strings.TrimSpace(n); n != "" {
+		// items are lemma names (assumed for all arguments) or applications l(args) (assumed for these arguments)
+		depth, start := 0, 0
+		us := head[k+len(" using "):]
+		var items []string
+		for i, ch := range us {
+			switch ch {
+			case '(', '[', '{':
+				depth++
+			case ')', ']', '}':
+				depth--
+			case ',':
+				if depth == 0 {
+					items = append(items, us[start:i])
+					start = i + 1
+				}
+			}
+		}
+		items = append(items, us[start:])
+		for _, n := range items {
+			n = strings.TrimSpace(n)
+			if n == "" {
+				continue
+			}
+			if strings.Contains(n, "(") {
+				e, err := ParseExpr(n)
+				if err != nil {
+					return nil, false, fmt.Errorf("%s:%d: using: %v", path, line, err)
+				}
+				ld.UsingApps = append(ld.UsingApps, e)
+			} else {
 				ld.Using = append(ld.Using, n)
 			}
 		}
